@@ -243,6 +243,12 @@ def make_variant(src_path, ops, seed, out_path):
                     del nd.attrib["Charge"]
                 elif u < 0.22 and nd.get("NodeType") is None:
                     nd.set("Radical", str(rng.choice(["Doublet", "Singlet"])))
+    if "lone_ion" in ops:
+        # a bond-less fragment (a lone counter-ion, not labelled) is stored as the FIRST object of the page, far away from every label:
+        # it is no structure a label could name, and it does not change what the labels resolve to
+        ion = ET.Element("fragment", {"id": "48001", "BoundingBox": "9000 9000 9010 9010"})
+        ET.SubElement(ion, "n", {"id": "48002", "p": "9005 9005", "Element": "17", "Charge": "-1", "NumHydrogens": "0"})
+        page.insert(0, ion)
     if "group_all" in ops:
         # every page-level fragment and label selected and grouped (ChemDraw's Group command): one <group> holding them all,
         # in stored or reversed order; which fragment a label names is still decided by the drawing (label under its fragment)
@@ -745,7 +751,7 @@ def enum_identity(tier, shard, nshards):
 
 
 def strat_variants(tier):
-    ops = st.lists(st.sampled_from(["permute_top", "translate", "renumber", "renumber_small", "permute_nodes", "group_all", "recharge"]), min_size=1, max_size=4, unique=True).filter(lambda o: not ("renumber" in o and "renumber_small" in o))
+    ops = st.lists(st.sampled_from(["permute_top", "translate", "renumber", "renumber_small", "permute_nodes", "group_all", "recharge", "lone_ion"]), min_size=1, max_size=4, unique=True).filter(lambda o: not ("renumber" in o and "renumber_small" in o))
     return st.fixed_dictionaries({"file": st.sampled_from(FILES), "ops": ops, "seed": st.integers(0, 10**6), "broken": st.one_of(st.none(), st.integers(0, 50))})
 
 
